@@ -29,6 +29,7 @@ pub const DEF: PropDef = PropDef {
 pub const SUBS: &[SubDef] = &[
     SubDef { prop: "C02", name: "frame_exhaustive", oracle: frame_exhaustive },
     SubDef { prop: "C02", name: "frame_generated", oracle: frame_generated },
+    SubDef { prop: "C02", name: "frame_raw", oracle: frame_raw },
 ];
 
 fn run(ctx: &Ctx) {
@@ -54,6 +55,7 @@ fn run(ctx: &Ctx) {
         cases,
     );
     ctx.run_tape("frame_generated", frame_generated, ctx.pick(6_000, 400_000), 512);
+    ctx.run_tape("frame_raw", frame_raw, ctx.pick(10_000, 400_000), 64);
 }
 
 thread_local! {
@@ -195,6 +197,24 @@ fn frame_exhaustive(t: &mut Tape, obs: &mut Obs) -> R {
         }
         Ok(())
     })
+}
+
+/// the tape itself is the input: the framing contract on arbitrary bytes and on every prefix of them
+fn frame_raw(t: &mut Tape, obs: &mut Obs) -> R {
+    let mut buf = Vec::new();
+    while !t.exhausted() {
+        buf.push(t.u8());
+    }
+    for p in PARSERS {
+        for c in 0..=buf.len().min(80) {
+            check_cut(p, &buf[..c], obs)?;
+        }
+        check_cut(p, &buf, obs)?;
+    }
+    if buf.len() > 5 {
+        obs.sample(json!({"case": "raw", "hex": hex_short(&buf)}));
+    }
+    Ok(())
 }
 
 fn frame_generated(t: &mut Tape, obs: &mut Obs) -> R {
